@@ -521,3 +521,130 @@ func (e *GitExpect) CheckChangeMapTop(got map[string]map[string]int, limit int) 
 	}
 	return []GitMismatch{{sig, strings.Join(diffs, "; ")}}
 }
+
+// ---------------------------------------------------------------------------------------------------------------
+// Tables cut to their first n rows (`coca git --full --size n`). A cut listing must still be a prefix of a correctly
+// ordered full listing: n rows (or all, if fewer), every row a correct row, order as stated, and no omitted file may
+// precede a shown one (ties may be cut anywhere). The basic summary is not a listing and is never cut (CheckBasicRows).
+
+func gitMin(a, b int) int {
+	if a < b {
+		return a
+	}
+	return b
+}
+
+func (e *GitExpect) CheckTeamCut(rows []GitTeamRow, n int) []GitMismatch {
+	var out []GitMismatch
+	if want := gitMin(n, len(e.Live)); len(rows) != want {
+		out = append(out, GitMismatch{"team-cut/row-count", fmt.Sprintf("%d rows shown with size %d, %d files exist", len(rows), n, len(e.Live))})
+	}
+	shown := map[string]bool{}
+	minShown := 1 << 30
+	for i, r := range rows {
+		rec, ok := e.Live[r.Name]
+		switch {
+		case !ok:
+			out = append(out, GitMismatch{"team-cut/extra-row", fmt.Sprintf("%q is shown but is no existing file", r.Name)})
+			continue
+		case shown[r.Name]:
+			out = append(out, GitMismatch{"team-cut/duplicate-row", fmt.Sprintf("%q is shown twice", r.Name)})
+		case r.Authors != len(rec.authors) || r.Revs != len(rec.revs):
+			out = append(out, GitMismatch{"team-cut/value/" + rec.tagString(), fmt.Sprintf("%q: shown authors=%d revs=%d, history gives authors=%d revs=%d", r.Name, r.Authors, r.Revs, len(rec.authors), len(rec.revs))})
+		}
+		shown[r.Name] = true
+		if i > 0 && r.Revs > rows[i-1].Revs {
+			out = append(out, GitMismatch{"team-cut/order-not-non-increasing-in-revisions", fmt.Sprintf("row %d (%q, %d revisions) comes after %q (%d revisions)", i, r.Name, r.Revs, rows[i-1].Name, rows[i-1].Revs)})
+		}
+		if len(rec.revs) < minShown {
+			minShown = len(rec.revs)
+		}
+	}
+	for _, p := range gitSortedPaths(e.Live) {
+		if !shown[p] && len(rows) > 0 && len(e.Live[p].revs) > minShown {
+			out = append(out, GitMismatch{"team-cut/omitted-file-has-more-revisions", fmt.Sprintf("%q (%d revisions) is cut off while a file with %d revisions is shown", p, len(e.Live[p].revs), minShown)})
+			break
+		}
+	}
+	if len(out) > 3 {
+		out = out[:3]
+	}
+	return out
+}
+
+// CheckAgeCut: names only (the CLI prints wall-clock dependent months); dates are the expected first-commit dates.
+func (e *GitExpect) CheckAgeCut(names []string, n int) []GitMismatch {
+	var out []GitMismatch
+	if want := gitMin(n, len(e.Live)); len(names) != want {
+		out = append(out, GitMismatch{"age-cut/row-count", fmt.Sprintf("%d rows shown with size %d, %d files exist", len(names), n, len(e.Live))})
+	}
+	shown := map[string]bool{}
+	maxShown, prev := "", ""
+	for i, name := range names {
+		rec, ok := e.Live[name]
+		if !ok {
+			out = append(out, GitMismatch{"age-cut/extra-row", fmt.Sprintf("%q is shown but is no existing file", name)})
+			continue
+		}
+		if shown[name] {
+			out = append(out, GitMismatch{"age-cut/duplicate-row", fmt.Sprintf("%q is shown twice", name)})
+		}
+		shown[name] = true
+		if prev != "" && rec.first < prev {
+			out = append(out, GitMismatch{"age-cut/order-not-oldest-first", fmt.Sprintf("row %d (%q, first commit %s) comes after a file first committed %s", i, name, rec.first, prev)})
+		}
+		prev = rec.first
+		if rec.first > maxShown {
+			maxShown = rec.first
+		}
+	}
+	for _, p := range gitSortedPaths(e.Live) {
+		if !shown[p] && len(names) > 0 && e.Live[p].first < maxShown {
+			out = append(out, GitMismatch{"age-cut/omitted-file-is-older", fmt.Sprintf("%q (first commit %s) is cut off while a file first committed %s is shown", p, e.Live[p].first, maxShown)})
+			break
+		}
+	}
+	if len(out) > 3 {
+		out = out[:3]
+	}
+	return out
+}
+
+// CheckTopCut: min(n, #authors) distinct authors, each with its own numbers (which authors survive the cut is free:
+// the statement fixes no order for this list).
+func (e *GitExpect) CheckTopCut(rows []GitTopRow, n int) []GitMismatch {
+	var out []GitMismatch
+	if want := gitMin(n, len(e.Top)); len(rows) != want {
+		out = append(out, GitMismatch{"top-cut/row-count", fmt.Sprintf("%d rows shown with size %d, the history has %d authors", len(rows), n, len(e.Top))})
+	}
+	seen := map[string]bool{}
+	for _, r := range rows {
+		w, ok := e.Top[r.Name]
+		switch {
+		case !ok:
+			out = append(out, GitMismatch{"top-cut/unknown-author", fmt.Sprintf("author %q is shown but wrote no commit", r.Name)})
+		case seen[r.Name]:
+			out = append(out, GitMismatch{"top-cut/duplicate-author", fmt.Sprintf("author %q is shown twice", r.Name)})
+		case r.Commits != w[0]:
+			out = append(out, GitMismatch{"top-cut/commit-count", fmt.Sprintf("author %q: %d commits shown, the history has %d", r.Name, r.Commits, w[0])})
+		case r.Lines != w[1]:
+			out = append(out, GitMismatch{"top-cut/net-lines", fmt.Sprintf("author %q: net lines %d shown, sum(added)-sum(deleted) = %d", r.Name, r.Lines, w[1])})
+		}
+		seen[r.Name] = true
+	}
+	if len(out) > 3 {
+		out = out[:3]
+	}
+	return out
+}
+
+// CheckBasicRows: the basic summary table must give all three figures of the statement whatever listing options are
+// in force; rows maps the printed statistic names to their numbers.
+func (e *GitExpect) CheckBasicRows(rows map[string]int) []GitMismatch {
+	for _, k := range []string{"Commits", "Entities", "Authors"} {
+		if _, ok := rows[k]; !ok {
+			return []GitMismatch{{"basic/row-missing/" + k, fmt.Sprintf("the basic summary table has no %q row (rows shown: %d)", k, len(rows))}}
+		}
+	}
+	return e.CheckBasic(rows["Commits"], rows["Entities"], rows["Authors"])
+}
